@@ -22,7 +22,7 @@ import mm17_oracle as O
 CID = 'C17'
 BENCH = os.path.join(C.REPO, 'generation', 'mm-benchmarks')
 CORPUS = os.path.join(C.VERIF, 'harness', 'corpus', CID)
-MODEL_DEPS = ['MM17/Ast.vo', 'MM17/Print.vo', 'MM17/Parse.vo', 'MM17/Wf.vo', 'MM17/Slice.vo', 'MM17/Verify.vo']
+MODEL_DEPS = ['MM17/Ast.vo', 'MM17/Print.vo', 'MM17/Parse.vo', 'MM17/Wf.vo', 'MM17/Slice.vo', 'MM17/SliceSpec.vo', 'MM17/Verify.vo']
 
 
 def build_model():
@@ -149,9 +149,9 @@ def run(tier, seed):
         mismatches.append(('model-build', '-', log[-1500:]))
 
     # ---- inputs
-    n_gen = 220 if quick else 4000
-    n_mal = 200 if quick else 4000
-    n_ast = 250 if quick else 5000
+    n_gen = 450 if quick else 12000
+    n_mal = 450 if quick else 12000
+    n_ast = 500 if quick else 15000
     texts = []            # (id, kind, text)
     dbs = []              # (id, db tuple) for slicing
     for path in sorted(glob.glob(os.path.join(CORPUS, '*.mm'))):
@@ -275,7 +275,7 @@ def run(tier, seed):
                 req['incl'] = [r.choice(pl)]
         reqs.append(req)
     seeds = ['0', '1', '2', '3']
-    impl_s = {hs: run_impl(reqs if hs == '0' else reqs[:len(reqs) if not quick else 120], hashseed=hs) for hs in seeds}
+    impl_s = {hs: run_impl(reqs if hs == '0' else reqs[:len(reqs) if not quick else 200], hashseed=hs) for hs in seeds}
     lines = []
     for (cid, db, info), res in zip(slice_inputs, impl_s['0']):
         if 'error' in res:
@@ -352,6 +352,75 @@ def run(tier, seed):
                 order_dependent += 1
     R.hist['slices-checked'] = n_slices
     R.hist['slice-dbs-with-hash-dependent-$d-order(note for C18)'] = order_dependent
+
+    # ---- 5b. tie D: reference verifier model (Verify.v) vs the harness' Python verifier; model predicates on real slices
+    vlines, vexp, vid = [], [], []
+
+    def mutate_proof(r, db):
+        """database with one $p proof or statement perturbed (mostly invalid proofs)"""
+        pl = O.provable_labels(db)
+        if not pl:
+            return None
+        tgt = r.choice(pl)
+
+        def mut(s):
+            if s[0] == 'B':
+                return ('B', tuple(mut(x) for x in s[1]))
+            if s[0] == 'P' and s[1] == tgt and s[3]:
+                pf = list(s[3])
+                m = r.random()
+                if m < 0.35 and pf[0] == '(' and len(pf) > pf.index(')') + 1:
+                    k = r.randrange(pf.index(')') + 1, len(pf))
+                    w = list(pf[k])
+                    w[r.randrange(len(w))] = r.choice('ABCDEFGHUVZ')
+                    pf[k] = ''.join(w)
+                elif m < 0.55 and len(pf) > 2:
+                    i, j = r.randrange(len(pf)), r.randrange(len(pf))
+                    pf[i], pf[j] = pf[j], pf[i]
+                elif m < 0.7 and len(pf) > 1:
+                    del pf[r.randrange(len(pf))]
+                elif m < 0.85:
+                    return ('P', s[1], (s[2][0], ('A', '\\imp', (s[2][1], s[2][1]))), s[3])
+                else:
+                    pf.insert(r.randrange(len(pf) + 1), r.choice(['?', 'nolabel', 'A', 'Z', '(' , ')']))
+                return ('P', s[1], s[2], tuple(pf))
+            return s
+        return tuple(mut(x) for x in db), tgt
+
+    for j, (cid, db, info) in enumerate(gen_dbs):
+        for lab in O.provable_labels(db):
+            vlines.append('VERIFY ' + F.db_str(db) + ' ' + lab)
+            vexp.append(O.verify(db, lab))
+            vid.append((cid, lab, 'original'))
+        r = C.rng_for(seed, f'{CID}:vmut:{j}')
+        for _ in range(2):
+            mres = mutate_proof(r, db)
+            if mres:
+                vlines.append('VERIFY ' + F.db_str(mres[0]) + ' ' + mres[1])
+                vexp.append(O.verify(mres[0], mres[1]))
+                vid.append((cid, mres[1], 'mutated'))
+    for j, ((cid, db, info), res) in enumerate(zip(slice_inputs, impl_s['0'])):
+        if 'error' in res:
+            continue
+        for s in res['slices']:
+            sl = F.parse_db_str(s['ast'])
+            vlines.append('VERIFY ' + s['ast'] + ' ' + s['label'])
+            vexp.append(O.verify(sl, s['label']))
+            vid.append((cid, s['label'], 'slice'))
+            vlines.append('DECL ' + s['ast'])
+            vexp.append((True, 'declares_all'))
+            vid.append((cid, s['label'], 'slice-declares_all'))
+            if O.verify(db, s['label'])[0]:
+                # premise of C17_slice_proof_verifies_partial, decided by the extracted model
+                vlines.append('AGREE ' + F.db_str(db) + ' ' + s['ast'] + ' ' + s['label'])
+                vexp.append((True, 'scope_agree'))
+                vid.append((cid, s['label'], 'slice-scope_agree'))
+    vout = run_model(exe, vlines) if exe else []
+    for (cid, lab, what), ans, exp in zip(vid, vout, vexp):
+        R.case(('verify', cid, lab, what), True, f'verify:{what}:{"valid" if exp[0] else "invalid"}')
+        if (ans == '1') != exp[0]:
+            mismatches.append(('verify' if not what.startswith('slice-') else what, f'{cid}:{lab}:{what}',
+                               dict(model=ans, oracle=exp)))
 
     # ---- 6. verdict
     if mismatches:
